@@ -681,7 +681,84 @@ func Forall(bnd []*Term, body *Term, pats ...*Term) *Term {
 	if body == True || body == False {
 		return body
 	}
+	if len(pats) == 0 && len(bnd) == 1 {
+		pats = autoPatterns(bnd[0], body)
+	}
 	return T.mk(&Term{Op: "forall", Bnd: bnd, Args: []*Term{body}, Sort: BoolSort, Pat: pats})
+}
+
+// patternLegal: solvers reject boolean connectives, ite and predicates inside triggers.
+func patternLegal(t *Term, memo map[*Term]bool) bool {
+	if v, ok := memo[t]; ok {
+		return v
+	}
+	ok := true
+	switch t.Op {
+	case "var", "const", "app", "select", "store", "bvadd", "bvsub", "bvmul", "bvneg", "extract", "zero_extend", "sign_extend", "concat",
+		"bvshl", "bvlshr", "bvand", "bvor", "bvxor", "bvnot":
+		for _, a := range t.Args {
+			if !patternLegal(a, memo) {
+				ok = false
+				break
+			}
+		}
+	default:
+		ok = false
+	}
+	memo[t] = ok
+	return ok
+}
+
+// autoPatterns: array reads (and uninterpreted applications) whose index mentions the bound
+// variable, as alternative E-matching triggers.
+func autoPatterns(b, body *Term) []*Term {
+	memo := map[*Term]bool{}
+	var has func(t *Term) bool
+	has = func(t *Term) bool {
+		if t == b {
+			return true
+		}
+		if v, ok := memo[t]; ok {
+			return v
+		}
+		r := false
+		for _, a := range t.Args {
+			if has(a) {
+				r = true
+				break
+			}
+		}
+		memo[t] = r
+		return r
+	}
+	var pats []*Term
+	seen := map[*Term]bool{}
+	var walk func(t *Term)
+	walk = func(t *Term) {
+		if seen[t] || !has(t) {
+			return
+		}
+		seen[t] = true
+		if t.Op == "forall" || t.Op == "exists" {
+			return
+		}
+		if t.Op == "select" && !has(t.Args[0]) && has(t.Args[1]) && patternLegal(t, map[*Term]bool{}) {
+			pats = append(pats, t)
+			return
+		}
+		if t.Op == "app" && len(t.Args) > 0 && patternLegal(t, map[*Term]bool{}) {
+			pats = append(pats, t)
+			return
+		}
+		for _, a := range t.Args {
+			walk(a)
+		}
+	}
+	walk(body)
+	if len(pats) > 6 {
+		pats = pats[:6]
+	}
+	return pats
 }
 func Exists(bnd []*Term, body *Term) *Term {
 	if body == True || body == False {
@@ -720,6 +797,16 @@ func Subst(t *Term, m map[*Term]*Term) *Term {
 		var r *Term
 		if !changed {
 			r = t
+		} else if t.Op == "forall" || t.Op == "exists" {
+			pats := make([]*Term, len(t.Pat))
+			for i, p := range t.Pat {
+				pats[i] = rec(p)
+			}
+			if args[0] == True || args[0] == False {
+				r = args[0]
+			} else {
+				r = T.mk(&Term{Op: t.Op, Bnd: t.Bnd, Args: args, Sort: BoolSort, Pat: pats})
+			}
 		} else {
 			r = rebuild(t, args)
 		}
@@ -843,14 +930,13 @@ func printTerm(sb *strings.Builder, t *Term, names map[*Term]string) {
 		}
 		printTerm(sb, t.Args[0], names)
 		if len(t.Pat) > 0 {
-			sb.WriteString(" :pattern (")
-			for i, p := range t.Pat {
-				if i > 0 {
-					sb.WriteByte(' ')
-				}
+			// each pattern is an alternative trigger
+			for _, p := range t.Pat {
+				sb.WriteString(" :pattern (")
 				printTerm(sb, p, names)
+				sb.WriteString(")")
 			}
-			sb.WriteString("))")
+			sb.WriteString(")")
 		}
 		sb.WriteByte(')')
 	default:
